@@ -685,6 +685,8 @@ func checkC18(r *Report) {
 			r.ok("C18.e/ALIAS-ISOLATED", "util/resolve/api.go", "", fmt.Sprintf("none of the %d by-value attribute-set parameters in the API client's code has its shared map written (the per-section dependency type is cloned before KnownAs is added)", n))
 		}
 		r.floor("C18.e/ALIAS-ISOLATED", "by-value attribute-set parameters in api.go", n, 1)
+		nET := entryOwnTypeRule(r, p, "C18.h/ENTRY-OWN-TYPE", "util/resolve/api.go")
+		r.floor("C18.h/ENTRY-OWN-TYPE", "requirements built inside loops in api.go", nET, 2)
 	}
 	// C18.f
 	{
